@@ -9,7 +9,7 @@ RULE = ('case = (value recipe over int/float/bool/None/Ellipsis/str/bytes/list/t
         'width, ribbon_width, indent, sort_dict_keys); exhaustive part: every tree with <= 3 nodes over a '
         '14-leaf adversarial alphabet x 5 configs x sort in {F,T}; random part: Hypothesis recursive trees '
         '(<= 25 leaves) x widths/ribbons 1..200, indent 1..8. Oracle: eval("(" + pformat + ")") is '
-        'type-strictly equal (canonical form; -0.0, nan, bool vs int, dict order) and no warning. '
+        'type-strictly equal (canonical form; -0.0, nan, bool vs int, dict order) and no printer fell back to repr. '
         'non-trivial = value has a container and the output spans > 1 line or holds a string literal; '
         'distinct = hash of recipe+config')
 ASSUMPTIONS = ['CPython eval/ast of the printed text is the evaluation oracle',
@@ -104,8 +104,8 @@ def oracle(case):
     labels = []
     if p.exc is not None:
         return core.viol('pformat-raised', '%r' % (p.exc,))
-    if p.warnings:
-        return core.viol('warning', p.warnings[0][:300] + '\n' + p.text[:300])
+    if p.fallback_warnings():
+        return core.viol('printer-failed', p.fallback_warnings()[0][:300] + '\n' + p.text[:300])
     try:
         back = values.evaluate(p.text)
     except Exception as e:
